@@ -312,6 +312,11 @@ def _data_of(node: Node, allow_minus: bool):
                 raise NotData(f"duplicate attribute {name}")
             out[name] = _data_of(b.child_by_field_name("expression"), True)
         return out
+    if t == "parenthesized_expression":
+        inner = node.child_by_field_name("expression")
+        if inner is None:
+            raise NotData("empty parentheses")
+        return _data_of(inner, True)
     if t == "unary_expression" and allow_minus:
         op = node.child_by_field_name("operator")
         arg = node.child_by_field_name("argument")
